@@ -50,10 +50,17 @@ def main(c):
         A, B = pow(2, (1 << 258) + a, p), pow(2, (1 << 258) + b, p)
         lines += ["dhpub %s %s" % (h(a, 64), h(rnd.getrandbits(256), 64)), "dhkey %s %s %s" % (h(B, 512), h(a, 64), h(rnd.getrandbits(256), 64)),
                   "dhkey %s %s %s" % (h(A, 512), h(b, 64), h(rnd.getrandbits(256), 64))]
+    # every allocation of the bignum library refused in turn (one exponentiation needs about 60 of them): the call either reports
+    # failure or returns the specified value
+    for _ in range(c.pick(1, 6)):
+        x, y = rnd.getrandbits(256), rnd.getrandbits(2048) % p
+        for k in range(1, 91):
+            lines.append("dhpub %s %s %d" % (h(x, 64), h(rnd.getrandbits(256), 64), k))
+            lines.append("dhkey %s %s %s %d" % (h(y, 512), h(x, 64), h(rnd.getrandbits(256), 64), k))
     c.cov["calls"] = len(lines)
     g.run(c, exe, lines, "dh", per=40)
     c.cov["rule"] = ("private values 0, 1, 2, 2^256-1, values with leading zero bytes and random; peer values 0, 1, 2, p-1, p, p+1, 2^2048-1, short, random, and values whose "
                      "result has leading zero bytes; blinding values 0, 2^256-1, 1, random (scripted by replacing the entropy call at link time); single-bit variations of p "
-                     "for the sanity check; every result validated by TLC against 2^(2^258+x) mod p / y^(2^258+x) mod p (BigInteger.modPow), 256-byte big-endian; "
+                     "for the sanity check; each of the first 90 bignum allocations of a call refused in turn; every result validated by TLC against 2^(2^258+x) mod p / y^(2^258+x) mod p (BigInteger.modPow), 256-byte big-endian; "
                      "an execution = 40 calls")
     c.cov["trusted_base"] = ["TLC", "java.math.BigInteger.modPow", "the group-14 modulus in DH.tla, re-derived from the RFC 3526 formula at setup"]
